@@ -570,6 +570,8 @@ type c19req struct {
 	ty, nat  string // as sent
 	ext      bool   // poll carries AcceptedRelayPattern
 	badPat   bool   // … and it is not a superset of the allowed pattern
+	emptyPat bool   // the (acceptable) pattern is the empty string, sent explicitly - what EncodeProxyPollRequest produces;
+	//                 an empty suffix is a superset of every pattern
 	out      byte   // polls: 'r' rejected 'i' idle 'm' matched; clients: 'd' denied 'm' matched
 	remote   string // RemoteAddr
 	validRem bool
@@ -580,8 +582,8 @@ type c19driver struct {
 	ctx      *BrokerContext
 	ipc      *IPC
 	buf      *bytes.Buffer
-	legacyOK bool // presumed pattern for legacy proxies is acceptable
-	n        int64 // request counter (atomic: clients are also driven from parallel goroutines)
+	legacyOK bool              // presumed pattern for legacy proxies is acceptable
+	n        int64             // request counter (atomic: clients are also driven from parallel goroutines)
 	ops      []string          // model ops of the whole history (with Z)
 	truth    [8]uint64         // true counts since the last period end, log-line order
 	prom     map[string]uint64 // true counts per rounded counter and label set (cumulative)
@@ -623,6 +625,8 @@ func (d *c19driver) pollBody(q c19req, sid string) []byte {
 		pat := c19goodPattern
 		if q.badPat {
 			pat = c19badPattern
+		} else if q.emptyPat {
+			pat = "" // present and empty: still a poll WITH the extension
 		}
 		b, err := messages.EncodeProxyPollRequestWithRelayPrefix(sid, q.ty, q.nat, 0, pat)
 		if err != nil {
@@ -822,6 +826,7 @@ func (d *c19driver) gen(rng *rand.Rand, pool []string) c19req {
 	q := c19req{ty: types[rng.Intn(len(types))], nat: nats[rng.Intn(4)], ext: rng.Intn(3) != 0}
 	if q.ext {
 		q.badPat = rng.Intn(4) == 0
+		q.emptyPat = !q.badPat && rng.Intn(3) == 0
 	}
 	rejected := (q.ext && q.badPat) || (!q.ext && !d.legacyOK)
 	switch {
